@@ -17,4 +17,5 @@ REGISTRY = {
     "C16": _lazy("serde_checks", "run_c16"),
     "C04": _lazy("layout_checks", "run_c04"),
     "C09": _lazy("verifier_checks", "run_c09"),
+    "C15": _lazy("order_checks", "run_c15"),
 }
